@@ -184,6 +184,10 @@ func runProxy(t *testing.T, fx *fixtures, c verifCase, w *bufio.Writer) {
 						n, _ := strconv.Atoi(st)
 						mt.setProbe("status", n)
 					}
+					if d, ok := strings.CutPrefix(kv["probe"], "delay:"); ok {
+						n, _ := strconv.Atoi(d)
+						mt.setProbe("delay", n)
+					}
 				}
 			case "hold":
 				mt := world.net.add(str("name"))
@@ -208,6 +212,9 @@ func runProxy(t *testing.T, fx *fixtures, c verifCase, w *bufio.Writer) {
 				to := topts
 				if rt := dur("rt"); rt > 0 {
 					to.ResponseTimeout = rt // the target timeout of this service version
+				}
+				if hct := dur("hct"); hct > 0 {
+					to.HealthCheckConfig.Timeout = hct // a probe timeout longer than the probe interval
 				}
 				runCmd(kv["c"], func() error {
 					return router.DeployService(svc, targets, ServiceOptions{Hosts: []string{host + ".test"}}, to, dur("dt"), dur("drt"))
@@ -382,6 +389,14 @@ func genProxy(rng *mrand.Rand, n int, tier string, w *bufio.Writer) {
 			}
 			if !rollout && chance(rng, 25) {
 				host += fmt.Sprintf(" rt=%d", dur(pick(rng, []int64{400_000_000, 1_100_000_000}))) // a short target timeout
+			}
+			if !rollout && chance(rng, 20) {
+				host += fmt.Sprintf(" hct=%d", dur(2_600_000_000)) // a probe timeout longer than the probe interval
+				for _, tn := range ts {
+					if chance(rng, 50) {
+						fmt.Fprintf(w, "target name=%s probe=delay:%d\n", hexB([]byte(tn)), dur(pick(rng, []int64{1_400_000_000, 200_000_000})))
+					}
+				}
 			}
 			fmt.Fprintf(w, "%s c=%d svc=%s targets=%s dt=%d drt=%d%s\n", op, cid, hexB([]byte(svc)), encList(ts),
 				dur(pick(rng, []int64{2_100_000_000, 3_700_000_000})), dur(pick(rng, []int64{700_000_000, 1_300_000_000})), host)
